@@ -20,7 +20,9 @@ type scEnds struct {
 	maxEnds     int
 }
 
-func init() { scenarios["C12"] = func() Scenario { return &scEnds{reopenFails: map[int]int{}, failBudget: map[int]int{}} } }
+func init() {
+	scenarios["C12"] = func() Scenario { return &scEnds{reopenFails: map[int]int{}, failBudget: map[int]int{}} }
+}
 
 var endStatuses = []struct {
 	name   string
@@ -47,7 +49,9 @@ func (s *scEnds) Configure(w *World) {
 	w.buildCluster()
 }
 
-func (s *scEnds) MayDrop(w *World, c *Conn) bool  { return c.role == "d" && s.endsDone < s.maxEnds && len(c.streams) > 0 && w.ready1() }
+func (s *scEnds) MayDrop(w *World, c *Conn) bool {
+	return c.role == "d" && s.endsDone < s.maxEnds && len(c.streams) > 0 && w.ready1()
+}
 func (s *scEnds) MayStall(w *World, c *Conn) bool { return false }
 
 func (w *World) ready1() bool {
